@@ -35,7 +35,12 @@ func countParkedInOnce() int {
 
 func driveOnce(plan []M, out *Out, _ []string) {
 	for _, sc := range plan {
+		if n := num(sc, "burst"); n > 0 {
+			onceBurst(sc, out, n)
+			continue
+		}
 		arity, before, during, after := num(sc, "arity"), num(sc, "before"), num(sc, "during"), num(sc, "after")
+		nilf := boolean(sc, "nilf") // the callers arriving during / after the run pass a nil function (it must never be called)
 		var mu sync.Mutex
 		log := func(e M) { mu.Lock(); out.Emit(e); mu.Unlock() }
 		log(M{"ev": "reset", "arity": arity})
@@ -63,6 +68,21 @@ func driveOnce(plan []M, out *Out, _ []string) {
 			defer wg.Done()
 			log(M{"ev": "invoke", "t": t})
 			body := fn(t)
+			if nilf && t > before {
+				var vals []int
+				switch arity {
+				case 1:
+					vals = []int{o1.Do(nil)}
+				case 2:
+					a, b := o2.Do(nil)
+					vals = []int{a, b}
+				default:
+					a, b, c := o3.Do(nil)
+					vals = []int{a, b, c}
+				}
+				log(M{"ev": "ret", "t": t, "vals": vals, "effect": effect})
+				return
+			}
 			var vals []int
 			unerr := func(e error) int {
 				if x, ok := e.(idErr); ok {
@@ -145,3 +165,55 @@ func driveOnce(plan []M, out *Out, _ []string) {
 type idErr int
 
 func (e idErr) Error() string { return "e" }
+
+// onceBurst: many rounds of n callers released together on a fresh Once, nothing gated: the races of the very first Do.
+// Per round one line: how many functions started, and how many callers got exactly the values of the function that started
+// first.  (The per-round bookkeeping uses one mutex inside the functions only, never around Do.)
+func onceBurst(sc M, out *Out, n int) {
+	arity, rounds := num(sc, "arity"), num(sc, "rounds")
+	for r := 0; r < rounds; r++ {
+		var o1 sync2.Once1[int]
+		var o2 sync2.Once2[int, int]
+		var o3 sync2.Once3[int, int, int]
+		var mu sync.Mutex
+		started := []int{}
+		rets := make([][]int, n+1)
+		var wg sync.WaitGroup
+		start := make(chan struct{})
+		for t := 1; t <= n; t++ {
+			wg.Add(1)
+			go func(t int) {
+				defer wg.Done()
+				note := func() { mu.Lock(); started = append(started, t); mu.Unlock() }
+				<-start
+				switch arity {
+				case 1:
+					rets[t] = []int{o1.Do(func() int { note(); return t*10 + 1 })}
+				case 2:
+					a, b := o2.Do(func() (int, int) { note(); return t*10 + 1, t*10 + 2 })
+					rets[t] = []int{a, b}
+				default:
+					a, b, c := o3.Do(func() (int, int, int) { note(); return t*10 + 1, t*10 + 2, t*10 + 3 })
+					rets[t] = []int{a, b, c}
+				}
+			}(t)
+		}
+		close(start)
+		wg.Wait()
+		agree := 0
+		if len(started) > 0 {
+			f := started[0]
+			for t := 1; t <= n; t++ {
+				ok := len(rets[t]) == arity
+				for i := 0; ok && i < arity; i++ {
+					ok = rets[t][i] == f*10+i+1
+				}
+				if ok {
+					agree++
+				}
+			}
+		}
+		out.Emit(M{"ev": "reset", "arity": arity})
+		out.Emit(M{"ev": "burst", "n": n, "starts": len(started), "agree": agree})
+	}
+}
